@@ -215,12 +215,16 @@ func NewSSet() SSet {
 }
 
 func SSetHasKey(st SSet, key string) bool {
-	_, ok := frt.Destr2(dict.TryFind(st.Dict, key))
-	return ok
+	v, ok := frt.Destr2(dict.TryFind(st.Dict, key))
+	return (ok && v)
 }
 
 func SSetPut(st SSet, key string) {
 	dict.Add(st.Dict, key, true)
+}
+
+func SSetRemove(st SSet, key string) {
+	dict.Add(st.Dict, key, false)
 }
 
 func collectTVarFTypeWithSet(visited SSet, ft FType) []string {
@@ -240,14 +244,21 @@ func collectTVarFTypeWithSet(visited SSet, ft FType) []string {
 		return recurse(fa.RecType)
 	case FType_FRecord:
 		rt := _v9.Value
-		ri := lookupRecInfo(rt)
-		fres := frt.Pipe(frt.Pipe(ri.Fields, (func(_r0 []NameTypePair) []FType {
-			return slice.Map(func(_v1 NameTypePair) FType {
-				return _v1.Ftype
-			}, _r0)
-		})), (func(_r0 []FType) []string { return slice.Collect(recurse, _r0) }))
 		tres := frt.Pipe(rt.Targs, (func(_r0 []FType) []string { return slice.Collect(recurse, _r0) }))
-		return slice.Append(fres, tres)
+		rkey := rtToKey(rt)
+		return frt.IfElse(SSetHasKey(visited, rkey), (func() []string {
+			return tres
+		}), (func() []string {
+			SSetPut(visited, rkey)
+			ri := lookupRecInfo(rt)
+			fres := frt.Pipe(frt.Pipe(ri.Fields, (func(_r0 []NameTypePair) []FType {
+				return slice.Map(func(_v1 NameTypePair) FType {
+					return _v1.Ftype
+				}, _r0)
+			})), (func(_r0 []FType) []string { return slice.Collect(recurse, _r0) }))
+			SSetRemove(visited, rkey)
+			return slice.Append(fres, tres)
+		}))
 	case FType_FUnion:
 		ut := _v9.Value
 		uname := utName(ut)
@@ -448,7 +459,15 @@ func transTVFTypeWithSet(visited SSet, transTV func(TypeVar) FType, ftp FType) F
 		return frt.Pipe(ParamdType{Name: pt.Name, Targs: nts}, New_FType_FParamd)
 	case FType_FRecord:
 		rt := _v17.Value
-		return frt.Pipe(transRecType(recurse, rt), New_FType_FRecord)
+		rkey := rtToKey(rt)
+		return frt.IfElse(SSetHasKey(visited, rkey), (func() FType {
+			return ftp
+		}), (func() FType {
+			SSetPut(visited, rkey)
+			nrt := transRecType(recurse, rt)
+			SSetRemove(visited, rkey)
+			return New_FType_FRecord(nrt)
+		}))
 	case FType_FUnion:
 		ut := _v17.Value
 		uname := utName(ut)
